@@ -602,6 +602,6 @@ func (e *depEnv) Project(w *World) map[string]interface{} {
 		"rsN": rsN, "rsSpec": rsSpec,
 		"strategy": string(d.Spec.Strategy.Type), "surgeT": surgeT, "surgeV": surgeV, "unavT": unavT, "unavV": unavV,
 		"minReady": int(d.Spec.MinReadySeconds), "pdl": pdl, "origAnno": orig,
-		"stableLabel": RevOf(d.Labels["rollouts.kruise.io/stable-revision"]), "hpaOk": hpaOk,
+		"stableLabel": RevOf(d.Labels["rollouts.kruise.io/stable-revision"]), "hpaOk": hpaOk, "hpa": w.Cfg.HPA,
 	}
 }
